@@ -9,8 +9,8 @@ from collections import defaultdict, Counter
 from core import *
 
 PID = "C10"
-GRID_CFG = "CONSTANTS\n TraceMode = FALSE\nINIT GInit\nNEXT GNext\nINVARIANT EmitGrid\nINVARIANT TheoryDefined\nCHECK_DEADLOCK FALSE\n"
-TRACE_CFG = "CONSTANTS\n TraceMode = TRUE\nINIT TInit\nNEXT Step\nINVARIANT Report\nCHECK_DEADLOCK FALSE\n"
+GRID_CFG = "CONSTANTS\n TraceMode = FALSE\n Dense = %s\nINIT GInit\nNEXT GNext\nINVARIANT EmitGrid\nINVARIANT TheoryDefined\nCHECK_DEADLOCK FALSE\n"
+TRACE_CFG = "CONSTANTS\n TraceMode = TRUE\n Dense = FALSE\nINIT TInit\nNEXT Step\nINVARIANT Report\nCHECK_DEADLOCK FALSE\n"
 
 NO_RATE = ["composite/three_operator_splitting", "composite/accelerated_douglas_rachford_splitting (bound for quadratics only, "
            "'not directly comparable')", "fixed_point/krasnoselskii_mann_increasing_step_sizes",
@@ -26,8 +26,8 @@ def label(ex):
     return "wc_%s(%s)" % (name, grp)
 
 
-def grid(res, wd):
-    r = tlc("Rates", GRID_CFG, wd)
+def grid(res, wd, tier):
+    r = tlc("Rates", GRID_CFG % ("TRUE" if tier == "thorough" else "FALSE"), wd)
     if r["violated"]:
         raise Machinery("Rates.tla: %s violated (closed form out of fixed-point range)" % r["violated"])
     res.add_tlc("Rates(parameter grid inside the documented ranges + closed forms)", r)
@@ -99,17 +99,18 @@ def run(tier):
     res = Result(PID, tier, level="exploration")
     wd = workdir(PID)
     res.rule = ("traces = grid points (example, parameters) printed by spec/Rates.tla inside the documented validity ranges and "
-                "run on the real code (quick: every second point of each example plus all points of the labelled regions); "
+                "run on the real code (quick: every second point of each example plus all points of the labelled regions; thorough: "
+                "all points and the midpoints between neighbouring candidate values of the real parameters); "
                 "evaluations = traces + complexified-variant runs; distinct_nontrivial = points with a solved value and a "
                 "closed form (docstring formula or the example's own theoretical_tau) to compare with")
-    insts = subsample(grid(res, wd), tier)
+    insts = subsample(grid(res, wd, tier), tier)
     traces = pool_map("drv_c10", "run", insts, chunksize=1)
     res.traces = len(traces)
     res.evaluations = len(traces) + sum(len(t["variants"]) for t in traces)
     verd = validate(res, traces, wd)
     judge(res, verd)
-    if sum(1 for t, _ in verd if t["status"] == "ok") < 0.8 * len(verd):
-        raise Machinery("fewer than 80%% of the grid points were solved (%s)" % Counter(t["status"] for t, _ in verd))
+    if sum(1 for t, _ in verd if t["status"] in ("inconclusive", "out-of-range")) > 0.2 * len(verd):
+        raise Machinery("more than 20%% of the grid points are inconclusive (%s)" % Counter(t["status"] for t, _ in verd))
     res.samples = [dict(example=t["ex"], params=t["kws"], pepit_tau=t["pepit"] / 1e6,
                         theoretical_tau=(t["theo"] / 1e6) if t["hastheo"] else None, flag=t["flag"], clauses_failed=b)
                    for t, b in verd[:: max(1, len(verd) // 6)][:6]]
